@@ -38,7 +38,9 @@ def real_op(name, toks):
     tmap = {"INT": Token.INT, "REGISTER": Token.REGISTER, "SYMBOL": Token.SYMBOL, "STRING": Token.STRING,
             "CHAR": Token.CHAR}
     cls = getattr(op, name)
-    return cls(*[Token(tmap[k], v) for k, v in toks])
+    from hera.data import Location
+    # the parser always gives an operation the location of its name: debug mode relies on it
+    return cls(*[Token(tmap[k], v) for k, v in toks], loc=Location(1, 1, "<grid>", [""]))
 
 
 def describe_real_op(o):
